@@ -117,6 +117,8 @@ pub static FREE_PAGES: Mutex<Vec<u64>> = Mutex::new(Vec::new());
 /// 1-based ordinal (within the section) of the mprotect call that fails; 0 = none
 pub static MPROTECT_FAIL_AT: AtomicI64 = AtomicI64::new(0);
 pub static MPROTECT_CALLS: AtomicI64 = AtomicI64::new(0);
+/// every mprotect whose range covers this page fails (0 = none)
+pub static MPROTECT_FAIL_PAGE: AtomicU64 = AtomicU64::new(0);
 
 /// Pause points: (kind, 1-based ordinal of that kind within the section); the calling thread
 /// then waits until RELEASE is bumped or PAUSE_MAX_US elapsed.
@@ -134,6 +136,7 @@ pub fn plan_reset() {
     NEAR_INDEX.store(0, SeqCst);
     FREE_PAGES.lock().unwrap().clear();
     MPROTECT_FAIL_AT.store(0, SeqCst);
+    MPROTECT_FAIL_PAGE.store(0, SeqCst);
     MPROTECT_CALLS.store(0, SeqCst);
     PAUSE_KIND.store(0, SeqCst);
     PAUSE_ORDINAL.store(0, SeqCst);
@@ -324,7 +327,9 @@ pub unsafe extern "C" fn mprotect(addr: *mut libc::c_void, len: libc::size_t, pr
     }
     maybe_pause(Kind::Mprotect);
     let n = MPROTECT_CALLS.fetch_add(1, SeqCst) + 1;
-    let r = if MPROTECT_FAIL_AT.load(SeqCst) == n {
+    let fp = MPROTECT_FAIL_PAGE.load(SeqCst) as usize;
+    let covers = fp != 0 && (addr as usize) <= fp && fp < (addr as usize).saturating_add(len.max(1));
+    let r = if MPROTECT_FAIL_AT.load(SeqCst) == n || covers {
         set_errno(libc::ENOMEM);
         -1
     } else {
